@@ -2,6 +2,8 @@ package props
 
 import (
 	exserver "github.com/cybergarage/go-redis/examples/go-redisd/server"
+	"github.com/cybergarage/go-redis/redis/auth"
+	"path/filepath"
 
 	"bufio"
 	"encoding/binary"
@@ -254,6 +256,24 @@ func childServer() {
 	fmt.Sscan(os.Getenv("VERIF_CHILD_PORT"), &port)
 	srv := exserver.NewServer()
 	srv.SetPort(port)
+	if dir := os.Getenv("VERIF_CHILD_PKI"); dir != "" {
+		// TLS listener with the certificates the parent has generated
+		var tlsPort int
+		fmt.Sscan(os.Getenv("VERIF_CHILD_TLSPORT"), &tlsPort)
+		srv.SetTLSPort(tlsPort)
+		rd := func(name string) []byte {
+			b, err := os.ReadFile(filepath.Join(dir, name))
+			if err != nil {
+				fmt.Println("START-FAILED", err)
+				os.Exit(65)
+			}
+			return b
+		}
+		srv.ServerCert, srv.ServerKey, srv.CACerts = rd("server.crt"), rd("server.key"), rd("ca.crt")
+		if rule := os.Getenv("VERIF_CHILD_RULE"); rule != "" {
+			srv.AddAuthenticator(auth.NewCertificateAuthenticatorWith(auth.WithCommonName(rule)))
+		}
+	}
 	if err := srv.Start(); err != nil {
 		fmt.Println("START-FAILED", err)
 		os.Exit(65)
